@@ -13,8 +13,39 @@
        create_resized; the Dune traits as functions of a measured layout
    (F) MPIPack: byte buffer + cursor over abstract basic encoders (Section), executable instance
    (G) rrecv: size discovery (MPI_Mprobe + MPI_Get_count + resize) *)
-From Coq Require Import List NArith ZArith Bool Arith.
+From Coq Require Import List NArith ZArith Bool Arith Permutation.
+From DuneV Require Import Params_gen.
 Import ListNotations.
+
+(* ------------------------------------------------------------------ (0) tables re-read from the source (coq/Params_gen.v) *)
+(* the predefined MPI datatypes by code (order of tools/params.d/C07.py): (size, alignment) on LP64 x86-64, and their kind
+   (0 signed integer, 1 unsigned integer, 2 real, 3 complex); the 14 C types of ComposeMPITraits in the same order *)
+Definition c07_mpi_basic_table : list (nat * nat) :=
+  [(1,1); (1,1); (2,2); (2,2); (4,4); (4,4); (8,8); (8,8); (4,4); (8,8); (16,16); (16,8); (32,16); (8,4)].
+Definition c07_mpi_kind_table : list nat := [0; 1; 0; 1; 0; 1; 0; 1; 2; 2; 2; 3; 3; 3].
+Definition c07_ctype_sizeof : list nat := [1; 1; 2; 2; 4; 4; 8; 8; 4; 8; 16; 16; 32; 8].
+Definition c07_ctype_kind : list nat := [0; 1; 0; 1; 0; 1; 0; 1; 2; 2; 2; 3; 3; 3].
+(* MPITraits<C type i>::getType() as written in the source *)
+Definition c07_traits_code (i : nat) : nat := nth i c07_param_traits 99.
+Definition c07_traits_table_ok : bool :=
+  forallb (fun i => let c := c07_traits_code i in
+             (fst (nth c c07_mpi_basic_table (0, 0)) =? nth i c07_ctype_sizeof 1) && (nth c c07_mpi_kind_table 9 =? nth i c07_ctype_kind 8))
+          (seq 0 (length c07_ctype_sizeof)).
+(* Generic_MPI_Op<T, func<S>> for intrinsic S: the MPI op the source maps functor i to (0 std::plus, 1 std::multiplies, 2 Min, 3 Max) *)
+Definition c07_builtin_op (i : nat) : nat := nth i c07_param_opmap 99.
+Definition c07_mpi_op_sem (code : nat) (a b : Z) : Z :=
+  match code with 0 => (a + b)%Z | 1 => (a * b)%Z | 2 => Z.min a b | 3 => Z.max a b | _ => 0%Z end.
+Definition c07_functor_sem (i : nat) (a b : Z) : Z :=
+  match i with
+  | 0 => (a + b)%Z | 1 => (a * b)%Z
+  | 2 => if (b <? a)%Z then b else a          (* Dune::Min: std::min(t1,t2) *)
+  | 3 => if (a <? b)%Z then b else a          (* Dune::Max: std::max(t1,t2) *)
+  | _ => 0%Z end.
+(* what sum/prod/min/max compute on an intrinsic element type: the MPI op selected by the source's table *)
+Definition c07_intrinsic_reduce (i : nat) (a b : Z) : Z := c07_mpi_op_sem (c07_builtin_op i) a b.
+(* the size prefix MPIPack writes for dynamic items: its MPI type as written in the source *)
+Definition c07_prefix_bytes : nat := fst (nth c07_param_pack_prefix_type c07_mpi_basic_table (0, 0)).
+Definition c07_digit_bytes : nat := Nat.div c07_param_bigint_digit_bits 8.
 
 (* ------------------------------------------------------------------ (A) buffers *)
 Section Buffers.
@@ -271,7 +302,7 @@ Definition c07_traits_fieldvector (n : nat) (tK : c07_tmap) (displ : nat) :=
   c07_dt_struct [(1, displ, c07_dt_contiguous n tK)].
 (* MPITraits<bigunsignedint<k>>: contiguous(n, uint16); struct{1 x that at &digit-&data} *)
 Definition c07_traits_bigunsignedint (n displ : nat) :=
-  c07_dt_struct [(1, displ, c07_dt_contiguous n (c07_dt_basic 2 2))].
+  c07_dt_struct [(1, displ, c07_dt_contiguous n (c07_dt_basic c07_digit_bytes c07_digit_bytes))].
 (* MPITraits<std::pair<T1,T2>>: struct{T1 at offsetof(first), T2 at offsetof(second)} resized to sizeof(Pair) *)
 Definition c07_traits_pair (t1 t2 : c07_tmap) (d1 d2 sizeofP : nat) :=
   c07_dt_resized (c07_dt_struct [(1, d1, t1); (1, d2, t2)]) sizeofP.
@@ -372,10 +403,19 @@ Section Pack.
      (overwriting what was there), advance the cursor *)
   Definition c07_overwrite (buf : list B) (pos : nat) (bs : list B) : list B :=
     firstn pos buf ++ bs ++ skipn (pos + length bs) buf.
+  (* `if (size_t(_position + size) > _buffer.size()) _buffer.resize(_position + size)`: grow_only = the comparison is `>` (re-read from the
+     source); with any other comparison the buffer is resized to need whenever the sizes differ, i.e. it may shrink *)
+  Definition c07_pk_grow (grow_only : bool) (buf : list B) (need : nat) : list B :=
+    if grow_only then (if length buf <? need then buf ++ repeat zeroB (need - length buf) else buf)
+    else firstn need buf ++ repeat zeroB (need - length buf).
+  (* MPIPack::resize(n) (std::vector::resize) and enlarge(s) *)
+  Definition c07_pk_resize (p : c07_pack) (n : nat) : c07_pack :=
+    C07_PK (firstn n (c07_pk_buf p) ++ repeat zeroB (n - length (c07_pk_buf p))) (c07_pk_pos p).
+  Definition c07_pk_enlarge (p : c07_pack) (s : nat) : c07_pack := c07_pk_resize p (length (c07_pk_buf p) + s).
   Definition c07_pk_write (p : c07_pack) (pt : c07_ptype) (els : list (list V)) : c07_pack :=
     let bs := c07_item_bytes pt els in
     let need := c07_pk_pos p + length bs in
-    let buf := if length (c07_pk_buf p) <? need then c07_pk_buf p ++ repeat zeroB (need - length (c07_pk_buf p)) else c07_pk_buf p in
+    let buf := c07_pk_grow c07_param_pack_grow_only (c07_pk_buf p) need in
     C07_PK (c07_overwrite buf (c07_pk_pos p) bs) need.
 
   (* MPIPack::unpack (static: count elements; dynamic: read the int, resize, read) ; None = MPI error *)
@@ -411,13 +451,15 @@ End Pack.
 Definition c07_enc_n (s : nat) (v : N) : list N := c07_le_bytes s v.
 Definition c07_dec_n (s : nat) (bs : list N) : option (N * list N) :=
   if s <=? length bs then Some (c07_le_val (firstn s bs), skipn s bs) else None.
-Definition c07_enc_len_n (n : nat) : list N := c07_le_bytes 4 (N.of_nat n).
+Definition c07_enc_len_n (n : nat) : list N := c07_le_bytes c07_prefix_bytes (N.of_nat n).
 Definition c07_dec_len_n (bs : list N) : option (nat * list N) :=
-  match c07_dec_n 4 bs with None => None | Some (v, r) => Some (N.to_nat v, r) end.
+  match c07_dec_n c07_prefix_bytes bs with None => None | Some (v, r) => Some (N.to_nat v, r) end.
 
 Definition c07_pkn_write := c07_pk_write N N nat 0%N c07_enc_n c07_enc_len_n.
 Definition c07_pkn_read := c07_pk_read N N nat c07_dec_n c07_dec_len_n.
 Definition c07_pkn_item_bytes := c07_item_bytes N N nat c07_enc_n c07_enc_len_n.
+Definition c07_pkn_resize := c07_pk_resize N 0%N.
+Definition c07_pkn_enlarge := c07_pk_enlarge N 0%N.
 Definition c07_tm_ptype (tm : c07_tmap) (dyn : bool) (count : nat) : c07_ptype nat := C07_PT nat dyn (map snd (c07_tm_entries tm)) count.
 
 (* ------------------------------------------------------------------ (G) rrecv *)
@@ -452,3 +494,62 @@ Definition c07_pack_rrecv (B : Type) (zeroB : B) (wire : list B) (p0 : c07_pack 
   | Some b => Some (C07_PK B b (c07_pk_pos B p0))
   end.
 
+
+(* ------------------------------------------------------------------ (I) MPIData: how an object is described to MPI as (count, datatype) *)
+Record c07_mpidata := C07_MD { c07_md_count : nat; c07_md_tm : c07_tmap }.
+(* default MPIData<T>: ptr = &t, size() = 1, type() = MPITraits<T>::getType() *)
+Definition c07_md_object (tmT : c07_tmap) : c07_mpidata := C07_MD 1 tmT.
+(* the range specialisation (anything with data(), size(), value_type: std::vector, std::string, DynamicVector, but also FieldVector and
+   std::array): ptr = data(), size() = size(), type() = MPITraits<value_type>::getType() *)
+Definition c07_md_range (n : nat) (tmK : c07_tmap) : c07_mpidata := C07_MD n tmK.
+(* MPIPack: ptr = _buffer.data(), size() = _buffer.size(), MPI_PACKED *)
+Definition c07_md_pack (size : nat) : c07_mpidata := C07_MD size (c07_dt_basic 1 1).
+(* the type signature of a message: the sequence of basic items (here: their sizes) *)
+Definition c07_md_signature (d : c07_mpidata) : list nat :=
+  concat (repeat (map snd (c07_tm_entries (c07_md_tm d))) (c07_md_count d)).
+(* the bytes the description touches, relative to ptr *)
+Definition c07_md_entries (d : c07_mpidata) : list (nat * nat) := c07_tm_entries (c07_dt_contiguous (c07_md_count d) (c07_md_tm d)).
+Definition c07_md_bytes (d : c07_mpidata) : nat := c07_md_count d * c07_tm_size (c07_md_tm d).
+
+(* static_size of the MPIData specialisations: default -> true; range -> is_const || !has_resize; MPIPack -> is_const *)
+Inductive c07_md_kind := C07_KObject | C07_KRange (has_resize : bool) | C07_KPack.
+Definition c07_md_static_size (k : c07_md_kind) (is_const : bool) : bool :=
+  match k with C07_KObject => true | C07_KRange has_resize => is_const || negb has_resize | C07_KPack => is_const end.
+(* MPIPack::pack(const T& data): getMPIData(data) is the MPIData of CONST T, but the size prefix is decided by
+   decltype(getMPIData(std::declval<T&>()))::static_size (non-const T); unpack(T&) is selected by the non-const MPIData *)
+Definition c07_pack_writes_prefix (k : c07_md_kind) : bool := negb (c07_md_static_size k false).
+Definition c07_unpack_reads_prefix (k : c07_md_kind) : bool := negb (c07_md_static_size k false).
+(* what pack() would do if it asked the MPIData object it actually holds (of const T) *)
+Definition c07_pack_writes_prefix_const_view (k : c07_md_kind) : bool := negb (c07_md_static_size k true).
+
+(* the (sendcount, sendtype, recvcount, recvtype) argument computations of the non-blocking collectives with two descriptions *)
+Record c07_xfer_args := C07_XA { c07_xa_scount : nat; c07_xa_stm : c07_tmap; c07_xa_rcount : nat; c07_xa_rtm : c07_tmap }.
+Definition c07_b2n (b : bool) : nat := if b then 1 else 0.
+(* igather: MPI_Igather(in.ptr, in.size, in.type, out.ptr, outlen = (me==root)*in.size, <recv type>) ; the receive type is in.type()
+   since 954025b (c07_param_igather_recv_sendtype, re-read from the source), it was out.type() before *)
+Definition c07_igather_args (me root : nat) (din dout : c07_mpidata) : c07_xfer_args :=
+  C07_XA (c07_md_count din) (c07_md_tm din) (c07_b2n (me =? root) * c07_md_count din)
+         (if c07_param_igather_recv_sendtype then c07_md_tm din else c07_md_tm dout).
+Definition c07_iallgather_args (din dout : c07_mpidata) : c07_xfer_args :=
+  C07_XA (c07_md_count din) (c07_md_tm din) (c07_md_count din)
+         (if c07_param_iallgather_recv_sendtype then c07_md_tm din else c07_md_tm dout).
+(* iscatter: MPI_Iscatter(in.ptr, inlen = (me==root) * in.size()/procs, in.type, out.ptr, out.size, out.type) *)
+Definition c07_iscatter_args (me root procs : nat) (din dout : c07_mpidata) : c07_xfer_args :=
+  C07_XA (if c07_param_iscatter_divides_by_procs then Nat.div (c07_b2n (me =? root) * c07_md_count din) procs else c07_b2n (me =? root) * c07_md_count din)
+         (c07_md_tm din) (c07_md_count dout) (c07_md_tm dout).
+Definition c07_xa_send_sig (a : c07_xfer_args) : list nat := c07_md_signature (C07_MD (c07_xa_scount a) (c07_xa_stm a)).
+Definition c07_xa_recv_sig (a : c07_xfer_args) : list nat := c07_md_signature (C07_MD (c07_xa_rcount a) (c07_xa_rtm a)).
+(* two descriptions of the same memory are interchangeable when they touch the same bytes in the same order *)
+Fixpoint c07_entries_eqb (a b : list (nat * nat)) : bool :=
+  match a, b with
+  | [], [] => true
+  | x :: a', y :: b' => (fst x =? fst y) && (snd x =? snd y) && c07_entries_eqb a' b'
+  | _, _ => false
+  end.
+Definition c07_md_same_layout (d1 d2 : c07_mpidata) : bool := c07_entries_eqb (c07_md_entries d1) (c07_md_entries d2).
+(* which reduction trees the MPI library may use for an op created with the given commute flag, over P ranks *)
+Definition c07_tree_ok (commute : bool) (P : nat) (t : c07_tree) : Prop :=
+  if commute then Permutation.Permutation (c07_tree_leaves t) (seq 0 P) else c07_tree_leaves t = seq 0 P.
+(* the pre-954025b igather (receive side described by data_out's type) *)
+Definition c07_igather_args_old (me root : nat) (din dout : c07_mpidata) : c07_xfer_args :=
+  C07_XA (c07_md_count din) (c07_md_tm din) (c07_b2n (me =? root) * c07_md_count din) (c07_md_tm dout).
